@@ -26,7 +26,7 @@ for _dt, _size in (("SINT", 1), ("INT", 2), ("DINT", 4), ("LINT", 8), ("DWORD", 
         props=["C02"], max_paths=20000)
     contract(       # several bits of one word merged into one request
         id=f"rmw.merge.{_dt}", func=PK + "logix.ReadModifyWriteRequestPacket._setup_message", call="r.build_message()",
-        bind={"bits": [f"(0, {_bits - 1}, 3)", "(1, 0, 1)", f"({_bits - 1}, {_bits // 2}, 0)"]},
+        bind={"bits": [f"(0, {_bits - 1}, 3)", "(1, 0, 1)", f"({_bits - 1}, {_bits // 2}, 0)", "(5, 5, 5)", "(2, 6, 2)"]},
         params={"seq": P.int(0, 65535), "name": P.str(**IDENT), "v1": P.bool(), "v2": P.bool(), "v3": P.bool(), "use_ids": P.bool()},
         setup=[f"r = {PK}ReadModifyWriteRequestPacket(seq, name, {_ti(_dt)}, 0, use_ids)", "r.set_bit(bits[0], v1, 0)",
                "r.set_bit(bits[1], v2, 1)", "r.set_bit(bits[2], v3, 2)",
